@@ -6,4 +6,6 @@ export CARGO_NET_OFFLINE=true
 python3 tools/extract_tables.py || true
 (cd lean && lake build JsonVerif jsvdriver)
 (cd harness && cargo build --release --offline)
+# unoptimised build of the same binary: C03 runs its deep / long documents through both
+(cd harness && cargo build --offline) || true
 echo "setup done"
